@@ -262,6 +262,11 @@ def fee_twins(chk: core.Check, n):
 
 
 def run(chk: core.Check) -> int:
+    from tools import extract
+    ext = extract.main(['Code'])
+    chk.coverage['extract_digest'] = {k: v['digest'] for k, v in ext.items()}
+    chk.coverage['translated_functions'] = ext['Code']['data']
+    chk.trusted.append('tools/py2lean.py (Python subset -> Lean: assignments, list item assignment with Python index semantics, for-range loops, if; floats read as exact rationals)')
     clean = chk.prove(['GeoVerif.Properties.C16'])
     quick = chk.tier == 'quick'
     direct(chk, gen_direct(chk.rng, 4000 if quick else 20000))
